@@ -190,6 +190,12 @@ def build_case(cid, rng, schema):
                is_explicitly_exported=not p1["is_explicitly_exported"])
     ops += [{"op": "pl_update", "row": dict(p1b, id="$p1", next_list_id="$p2")}, {"op": "pl_get", "id": "$p1"}, {"op": "pl_get", "id": "$p2"}]
     plan += [("pl_update", 1, p1b), ("pl_get_after_update", 1), ("pl_get_other", 2)]
+    # a moving update (re-parenting) with unequal flags: takes the re-link branch of update()
+    p2m = dict(p2, title=GS.hx("Moved %d" % rng.randrange(1000)), parent_list_id="$p1", next_list_id=0, is_persisted=False,
+               is_explicitly_exported=True, last_edit_time=rtime(rng, u["t"]))
+    ops += [{"op": "pl_update", "row": dict(p2m, id="$p2")}, {"op": "pl_get", "id": "$p2"}, {"op": "pl_get", "id": "$p1"},
+            {"op": "pl_child_ids", "id": "$p1"}]
+    plan += [("pl_move", 2, p2m), ("pl_get_after_move", 2), ("pl_get_other_after_move", 1), ("pl_children_after_move",)]
     # entities
     e1 = {"list_id": "$p1", "track_id": "$2", "database_uuid": "$uuid", "next_entity_id": 0, "membership_reference": rng.randrange(0, 1000)}
     e2 = {"list_id": "$p1", "track_id": 424242, "database_uuid": GS.hx("foreign-uuid-%d" % rng.randrange(1000)), "next_entity_id": 0,
@@ -362,6 +368,30 @@ def judge_case(ctx, res):
         elif kind == "pl_get_first_after_second":
             if ret and ret.get("next_list_id") != pl[2]["id"]:
                 ctx.violation("playlist-chain-not-maintained", f"{schema}: after appending a second root list the first one's next_list_id is {ret.get('next_list_id')}", wit)
+        elif kind == "pl_move":
+            ctx.count()
+            if threw:
+                ctx.violation("update-rejects-valid-row playlist-move", f"{schema}: playlist_table::update (re-parenting) threw {ev['exc']['type']}", wit)
+                return
+            pl[2] = dict(p[2], id=pl[2]["id"], parent_list_id=pl[1]["id"])
+        elif kind == "pl_get_after_move":
+            ctx.count()
+            if threw or ret is None:
+                ctx.violation("get-fails pl_get_after_move", f"{schema}: playlist get() failed after a moving update", wit)
+                return
+            exp = dict(pl[2])
+            exp["last_edit_time"] = (exp["last_edit_time"] // NS) * NS
+            for c in exp:
+                if exp[c] != ret.get(c):
+                    ctx.violation(f"row-mismatch pl_get_after_move {c}", f"{schema}: after a re-parenting update playlist column {c} reads {ret.get(c)} but {exp[c]} was written", wit)
+        elif kind == "pl_get_other_after_move":
+            if ret is not None and not threw:
+                for c in ("title", "parent_list_id", "is_explicitly_exported"):
+                    if pl[1][c] != ret.get(c):
+                        ctx.violation(f"other-row-changed playlist-move {c}", f"{schema}: moving one playlist changed column {c} of another", wit)
+        elif kind == "pl_children_after_move":
+            if threw or list(ret) != [pl[2]["id"]]:
+                ctx.violation("playlist-chain-not-maintained after-move", f"{schema}: child_ids of the new parent = {ret}", wit)
         elif kind == "pl_update":
             ctx.count()
             if threw:
